@@ -311,7 +311,9 @@ int main(int argc, char ** argv)
       for (int mode : MODES)
         for (int level : LEVELS)
           for (int sd : SEEDS) {
-            if (std::string(cat) != "dbd" && (mode != 0 || level != 0)) continue; // mode/level only matter for dbd
+            // mode/level only matter for dbd: for the other categories a few stray values (a record filled from one struct for every
+            // request: defaults, "unset" markers, left-overs) - the core ignores them, so must the action
+            if (std::string(cat) != "dbd" && !((mode == 0 && level == 0) || (mode == -1 && level == -1) || (mode == 25 && level == 7) || (mode == 1 && level == -1))) continue;
             vcells.push_back({cat, nuc, mode, level, sd, -1.0, -1.0});
           }
   // energy windows: both bounds, lower only, upper only, inverted, above the range - on a window-capable mode (Zn70 mode 5) and on one that is not
